@@ -180,6 +180,11 @@ func decodeNode(encNode []byte, marshalizer marshal.Marshalizer, hasher hashing.
 		return nil, err
 	}
 
+	bn, isBranchNode := newNode.(*branchNode)
+	if isBranchNode && len(bn.EncodedChildren) != nrOfChildren {
+		return nil, ErrInvalidEncoding
+	}
+
 	newNode.setMarshalizer(marshalizer)
 	newNode.setHasher(hasher)
 
